@@ -55,14 +55,14 @@ VARIABLES
   \* per worker
   pc, op, cur, seen, newId, bseen, did,
   \* registry of named studies and the shared algorithm
-  registry, studies, myStudy, regLock, algReady, algLock, nProp, nFb, gProp, gFb, pop,
+  registry, studies, myStudy, regLock, algReady, algDone, algLock, nProp, nFb, gProp, gFb, pop,
   \* per study (a study is identified by the worker that created it)
   trials, latest, active, studyLock, pendingCnt, completedCnt, infeasibleCnt, best,
   \* ghost: which groups each trial was handed to
   delivered
 
 wvars == <<pc, op, cur, seen, newId, bseen, did>>
-avars == <<registry, studies, myStudy, regLock, algReady, algLock, nProp, nFb, gProp, gFb, pop>>
+avars == <<registry, studies, myStudy, regLock, algReady, algDone, algLock, nProp, nFb, gProp, gFb, pop>>
 svars == <<trials, latest, active, studyLock, pendingCnt, completedCnt, infeasibleCnt, best>>
 vars  == <<cf, wvars, avars, svars, delivered>>
 
@@ -80,7 +80,8 @@ AfterGoc   == IF MirrorGoc THEN (IF MirrorSetup THEN "setup_test" ELSE "setup_ac
 AfterSetup == IF MirrorSetup THEN "next" ELSE "setup_rel"
 TestEntry  == IF MirrorDone THEN "d_test" ELSE "m_acq"
 AfterTrial(w) == IF op[w] = "done_end" THEN "end" ELSE "next"
-AfterSet(w)   == IF Skipping(w) THEN "k_acq" ELSE IF cf.evo THEN "f_acq" ELSE "f_count"
+FirstFb       == IF cf.evo THEN "f_fit" ELSE "f_count"
+AfterSet(w)   == IF Skipping(w) THEN "k_acq" ELSE FirstFb
 
 InitRest ==     \* everything but the choice of the configuration
   /\ pc = [w \in Workers |-> IF w <= cf.nw THEN (IF cf.warm THEN "next" ELSE StartPc) ELSE "stop"]
@@ -90,7 +91,7 @@ InitRest ==     \* everything but the choice of the configuration
   /\ did = [w \in Workers |-> FALSE]
   /\ registry = (IF cf.warm THEN 1 ELSE NULL) /\ studies = (IF cf.warm THEN {1} ELSE {})
   /\ myStudy = [w \in Workers |-> IF cf.warm /\ w <= cf.nw THEN 1 ELSE NULL]
-  /\ regLock = NULL /\ algReady = cf.warm /\ algLock = NULL
+  /\ regLock = NULL /\ algReady = cf.warm /\ algDone = cf.warm /\ algLock = NULL
   /\ nProp = 0 /\ nFb = 0 /\ gProp = 0 /\ gFb = 0 /\ pop = 0
   /\ trials = [s \in Workers |-> <<>>]
   /\ latest = [s \in Workers |-> [g \in Groups |-> 0]]
@@ -108,13 +109,13 @@ AcqReg(w) ==
   /\ pc[w] \in {"goc_acq", "setup_acq"} /\ regLock = NULL
   /\ regLock' = w
   /\ Goto(w, IF pc[w] = "goc_acq" THEN "goc_test" ELSE "setup_test")
-  /\ UNCHANGED <<cf, op, cur, seen, newId, bseen, did, registry, studies, myStudy, algReady, algLock,
+  /\ UNCHANGED <<cf, op, cur, seen, newId, bseen, did, registry, studies, myStudy, algReady, algDone, algLock,
                  nProp, nFb, gProp, gFb, pop, svars, delivered>>
 RelReg(w) ==
   /\ pc[w] \in {"goc_rel", "setup_rel"}
   /\ regLock' = NULL
   /\ Goto(w, IF pc[w] = "goc_rel" THEN (IF MirrorSetup THEN "setup_test" ELSE "setup_acq") ELSE "next")
-  /\ UNCHANGED <<cf, op, cur, seen, newId, bseen, did, registry, studies, myStudy, algReady, algLock,
+  /\ UNCHANGED <<cf, op, cur, seen, newId, bseen, did, registry, studies, myStudy, algReady, algDone, algLock,
                  nProp, nFb, gProp, gFb, pop, svars, delivered>>
 
 \* ---- get-or-create of the named study -----------------------------------------
@@ -123,25 +124,31 @@ GocTest(w) ==
   /\ IF registry = NULL
      THEN Goto(w, "goc_store") /\ UNCHANGED myStudy
      ELSE myStudy' = [myStudy EXCEPT ![w] = registry] /\ Goto(w, AfterGoc)
-  /\ UNCHANGED <<cf, op, cur, seen, newId, bseen, did, registry, studies, regLock, algReady, algLock,
+  /\ UNCHANGED <<cf, op, cur, seen, newId, bseen, did, registry, studies, regLock, algReady, algDone, algLock,
                  nProp, nFb, gProp, gFb, pop, svars, delivered>>
 GocStore(w) ==
   /\ pc[w] = "goc_store"
   /\ registry' = w /\ studies' = studies \cup {w} /\ myStudy' = [myStudy EXCEPT ![w] = w]
   /\ Goto(w, AfterGoc)
-  /\ UNCHANGED <<cf, op, cur, seen, newId, bseen, did, regLock, algReady, algLock,
+  /\ UNCHANGED <<cf, op, cur, seen, newId, bseen, did, regLock, algReady, algDone, algLock,
                  nProp, nFb, gProp, gFb, pop, svars, delivered>>
 
 \* ---- set-up of the shared algorithm -------------------------------------------
 SetupTest(w) ==
   /\ pc[w] = "setup_test"
-  /\ Goto(w, IF algReady THEN AfterSetup ELSE "setup_do")
+  /\ Goto(w, IF algReady THEN AfterSetup ELSE "setup_begin")
   /\ UNCHANGED <<cf, op, cur, seen, newId, bseen, did, avars, svars, delivered>>
-SetupDo(w) ==      \* DNAGenerator.setup: counters reset (evolution: fresh lock, empty population)
+SetupBegin(w) ==   \* DNAGenerator.setup, first statement: the DNASpec becomes visible to the test above
+  /\ pc[w] = "setup_begin"
+  /\ algReady' = TRUE
+  /\ Goto(w, "setup_do")
+  /\ UNCHANGED <<cf, op, cur, seen, newId, bseen, did, registry, studies, myStudy, regLock, algDone, algLock,
+                 nProp, nFb, gProp, gFb, pop, svars, delivered>>
+SetupDo(w) ==      \* rest of DNAGenerator.setup: counters reset (evolution: fresh lock, empty population)
   /\ pc[w] = "setup_do"
-  /\ algReady' = TRUE /\ nProp' = 0 /\ nFb' = 0 /\ pop' = 0 /\ algLock' = NULL
+  /\ algDone' = TRUE /\ nProp' = 0 /\ nFb' = 0 /\ pop' = 0 /\ algLock' = NULL
   /\ Goto(w, AfterSetup)
-  /\ UNCHANGED <<cf, op, cur, seen, newId, bseen, did, registry, studies, myStudy, regLock, gProp, gFb,
+  /\ UNCHANGED <<cf, op, cur, seen, newId, bseen, did, registry, studies, myStudy, regLock, algReady, gProp, gFb,
                  svars, delivered>>
 
 \* ---- next(): active test, lookup of the group's latest trial, its status ------
@@ -159,7 +166,7 @@ NextStatus(w) ==
   /\ IF seen[w] # 0 /\ trials[S(w)][seen[w]].status = "P"
      THEN /\ cur' = [cur EXCEPT ![w] = seen[w]]
           /\ delivered' = delivered \cup {<<S(w), seen[w], G(w)>>}
-          /\ Goto(w, "user")
+          /\ Goto(w, "got")
      ELSE Goto(w, "c_acq") /\ UNCHANGED <<cur, delivered>>
   /\ UNCHANGED <<cf, op, seen, newId, bseen, did, avars, svars>>
 
@@ -167,7 +174,7 @@ NextStatus(w) ==
 \*      test-and-set of the fixed done()/skip() = section 3) ----------------------
 WantsStudy(w) ==
   \/ pc[w] \in {"c_acq", "k_acq", "m_acq"}
-  \/ pc[w] \in {"f_acq", "f_count"} /\ Tr(w).inf    \* racing skip made the trial infeasible: no feedback
+  \/ pc[w] = FirstFb /\ Tr(w).inf    \* a racing skip() made the trial infeasible: no feedback
 AcqTarget(w) == IF pc[w] = "c_acq" THEN "c_check" ELSE IF pc[w] = "m_acq" THEN "d_test" ELSE "k_counts"
 Locked(w) == IF pc[w] = "c_acq" THEN LockCreate ELSE IF pc[w] = "m_acq" THEN TRUE ELSE LockComplete
 AcqStudy(w) ==
@@ -182,7 +189,7 @@ Unlock(w) == studyLock' = [studyLock EXCEPT ![S(w)] = IF @ = w THEN NULL ELSE @]
 RelStudy(w) ==
   /\ pc[w] \in {"c_rel", "k_rel", "m_rel"}
   /\ Unlock(w)
-  /\ Goto(w, CASE pc[w] = "c_rel" -> "user"
+  /\ Goto(w, CASE pc[w] = "c_rel" -> "got"
                [] pc[w] = "k_rel" -> AfterTrial(w)
                [] pc[w] = "m_rel" -> IF did[w] THEN AfterSet(w) ELSE AfterTrial(w))
   /\ did' = [did EXCEPT ![w] = FALSE]
@@ -199,17 +206,17 @@ CheckMax(w) ==
                  completedCnt, infeasibleCnt, best, delivered>>
 AcqAlg(w) ==
   /\ \/ pc[w] = "p_acq"
-     \/ pc[w] = "f_acq" /\ ~Tr(w).inf
+     \/ pc[w] = "f_acq"
   /\ IF LockAlg THEN algLock = NULL /\ algLock' = w ELSE UNCHANGED algLock
   /\ Goto(w, IF pc[w] = "p_acq" THEN "c_propose" ELSE "f_pop")
-  /\ UNCHANGED <<cf, op, cur, seen, newId, bseen, did, registry, studies, myStudy, regLock, algReady,
+  /\ UNCHANGED <<cf, op, cur, seen, newId, bseen, did, registry, studies, myStudy, regLock, algReady, algDone,
                  nProp, nFb, gProp, gFb, pop, svars, delivered>>
 Propose(w) ==      \* algorithm.propose(): returns (releasing the algorithm lock), then counts
   /\ pc[w] = "c_propose"
   /\ nProp' = nProp + 1 /\ gProp' = gProp + 1
   /\ algLock' = IF algLock = w THEN NULL ELSE algLock
   /\ Goto(w, "c_alloc")
-  /\ UNCHANGED <<cf, op, cur, seen, newId, bseen, did, registry, studies, myStudy, regLock, algReady,
+  /\ UNCHANGED <<cf, op, cur, seen, newId, bseen, did, registry, studies, myStudy, regLock, algReady, algDone,
                  nFb, gFb, pop, svars, delivered>>
 Alloc(w) ==
   /\ pc[w] = "c_alloc"
@@ -220,13 +227,26 @@ AppendTrial(w) ==
   /\ pc[w] = "c_append"
   /\ LET s == S(w)  p == Len(trials[s]) + 1 IN
      /\ trials' = [trials EXCEPT ![s] = Append(@, [id |-> newId[w], group |-> G(w), status |-> "P",
-                                                  inf |-> FALSE, fed |-> 0, ncomp |-> 0])]
+                                                  inf |-> FALSE, fit |-> FALSE, fed |-> 0, ncomp |-> 0])]
      /\ pendingCnt' = [pendingCnt EXCEPT ![s] = @ + 1]
      /\ latest' = [latest EXCEPT ![s][G(w)] = p]
      /\ cur' = [cur EXCEPT ![w] = p]
      /\ delivered' = delivered \cup {<<s, p, G(w)>>}
   /\ Goto(w, "c_rel")
   /\ UNCHANGED <<cf, op, seen, newId, bseen, did, avars, active, studyLock, completedCnt, infeasibleCnt, best>>
+
+\* ---- pg.sample between next() and the user: a trial whose DNA already carries a reward (an
+\*      evolution stores the fitness in the DNA's metadata when it is fed) is not handed to the
+\*      user; pg.sample reports that reward itself, ignoring the race-condition error -------------
+ReadReward(w) ==
+  /\ pc[w] = "got"
+  /\ Goto(w, IF Tr(w).fit THEN "sc_add" ELSE "user")
+  /\ UNCHANGED <<cf, op, cur, seen, newId, bseen, did, avars, svars, delivered>>
+ShortAdd(w) ==      \* feedback(reward): add_measurement, then done() unless the trial is finished already
+  /\ pc[w] = "sc_add"
+  /\ op' = [op EXCEPT ![w] = "done"]
+  /\ Goto(w, IF Tr(w).status = "P" THEN TestEntry ELSE "next")
+  /\ UNCHANGED <<cf, cur, seen, newId, bseen, did, avars, svars, delivered>>
 
 \* ---- the user step ------------------------------------------------------------
 Choose(w) ==
@@ -265,24 +285,30 @@ DoneSet(w) ==
                  completedCnt, infeasibleCnt, best, delivered>>
 
 \* ---- feedback to the algorithm ------------------------------------------------
+SetFitness(w) ==     \* Evolution._feedback: set_fitness(dna, reward), before the algorithm lock is taken
+  /\ pc[w] = "f_fit" /\ ~Tr(w).inf
+  /\ trials' = [trials EXCEPT ![S(w)][cur[w]].fit = TRUE]
+  /\ Goto(w, "f_acq")
+  /\ UNCHANGED <<cf, op, cur, seen, newId, bseen, did, avars, latest, active, studyLock, pendingCnt,
+                 completedCnt, infeasibleCnt, best, delivered>>
 EvoPopulation(w) ==
   /\ pc[w] = "f_pop"
   /\ pop' = pop + 1
   /\ Goto(w, "f_rel")
-  /\ UNCHANGED <<cf, op, cur, seen, newId, bseen, did, registry, studies, myStudy, regLock, algReady,
+  /\ UNCHANGED <<cf, op, cur, seen, newId, bseen, did, registry, studies, myStudy, regLock, algReady, algDone,
                  algLock, nProp, nFb, gProp, gFb, svars, delivered>>
 RelAlg(w) ==
   /\ pc[w] = "f_rel"
   /\ algLock' = IF algLock = w THEN NULL ELSE algLock
   /\ Goto(w, "f_count")
-  /\ UNCHANGED <<cf, op, cur, seen, newId, bseen, did, registry, studies, myStudy, regLock, algReady,
+  /\ UNCHANGED <<cf, op, cur, seen, newId, bseen, did, registry, studies, myStudy, regLock, algReady, algDone,
                  nProp, nFb, gProp, gFb, pop, svars, delivered>>
 AlgFeedback(w) ==
-  /\ pc[w] = "f_count" /\ ~Tr(w).inf
+  /\ pc[w] = "f_count" /\ (cf.evo \/ ~Tr(w).inf)
   /\ nFb' = nFb + 1 /\ gFb' = gFb + 1
   /\ trials' = [trials EXCEPT ![S(w)][cur[w]].fed = @ + 1]
   /\ Goto(w, "k_acq")
-  /\ UNCHANGED <<cf, op, cur, seen, newId, bseen, did, registry, studies, myStudy, regLock, algReady,
+  /\ UNCHANGED <<cf, op, cur, seen, newId, bseen, did, registry, studies, myStudy, regLock, algReady, algDone,
                  algLock, nProp, gProp, pop, latest, active, studyLock, pendingCnt, completedCnt,
                  infeasibleCnt, best, delivered>>
 
@@ -314,10 +340,10 @@ CompleteDone(w) ==
                  completedCnt, infeasibleCnt, delivered>>
 
 Step(w) ==
-  \/ AcqReg(w) \/ RelReg(w) \/ GocTest(w) \/ GocStore(w) \/ SetupTest(w) \/ SetupDo(w)
+  \/ AcqReg(w) \/ RelReg(w) \/ GocTest(w) \/ GocStore(w) \/ SetupTest(w) \/ SetupBegin(w) \/ SetupDo(w)
   \/ NextActive(w) \/ NextLookup(w) \/ NextStatus(w) \/ AcqStudy(w) \/ RelStudy(w)
   \/ CheckMax(w) \/ AcqAlg(w) \/ Propose(w) \/ Alloc(w) \/ AppendTrial(w)
-  \/ Choose(w) \/ AddMeasurement(w) \/ EndLoop(w) \/ DoneTest(w) \/ DoneSet(w)
+  \/ ReadReward(w) \/ ShortAdd(w) \/ SetFitness(w) \/ Choose(w) \/ AddMeasurement(w) \/ EndLoop(w) \/ DoneTest(w) \/ DoneSet(w)
   \/ EvoPopulation(w) \/ RelAlg(w) \/ AlgFeedback(w)
   \/ CompleteCounts(w) \/ BestRead(w) \/ CompleteDone(w)
 Next == \E w \in Workers : Step(w)
@@ -336,7 +362,7 @@ FeedbackAtMostOnce == \A s \in studies : \A i \in Pos(s) : trials[s][i].fed <= 1
 CompletedAtMostOnce == \A s \in studies : \A i \in Pos(s) : trials[s][i].ncomp <= 1
 CountersExact == nProp = gProp /\ nFb = gFb      \* the algorithm never loses a proposal or a feedback
 InfeasibleNeverBest == \A s \in studies : best[s] # 0 => ~trials[s][best[s]].inf
-Holding(w) == pc[w] \in {"user", "u_add", "d_test", "d_set", "m_acq", "m_rel", "f_acq", "f_pop", "f_rel",
+Holding(w) == pc[w] \in {"got", "sc_add", "f_fit", "user", "u_add", "d_test", "d_set", "m_acq", "m_rel", "f_acq", "f_pop", "f_rel",
                          "f_count", "k_acq", "k_counts", "k_best", "k_done", "k_rel"}
 Creating(w) == pc[w] \in {"c_acq", "c_check", "p_acq", "c_propose", "c_alloc", "c_append"}
 \* A worker is only ever handed a trial of its own group, and it opens a new trial only after the
@@ -352,6 +378,17 @@ CountsConsistent ==
     LET NotCounted(t) == t.ncomp = 0
         Sum[i \in 0..Len(trials[s])] == IF i = 0 THEN 0 ELSE Sum[i - 1] + trials[s][i].ncomp
     IN pendingCnt[s] = NumWhere(s, NotCounted) /\ completedCnt[s] = Sum[Len(trials[s])]
+\* Commit points of the three check-then-act races: the earliest state from which a violation of
+\* OneStudyPerName / CountersExact / FeedbackAtMostOnce is inevitable.
+At(l) == {w \in Active : pc[w] = l}
+InConstructor(w) == pc[w] \in {"goc_acq", "goc_test", "goc_store", "goc_rel", "setup_acq", "setup_test",
+                                 "setup_begin", "setup_do", "setup_rel"}
+SingleCreator == Cardinality(At("goc_store")) <= 1 /\ (At("goc_store") # {} => registry = NULL)
+SetupAtomic ==
+  /\ Cardinality(At("setup_begin") \cup At("setup_do")) + (IF algDone THEN 1 ELSE 0) <= 1
+  /\ \A w \in Active : ~InConstructor(w) => algDone
+SingleCompleter ==
+  \A w1, w2 \in At("d_set") : S(w1) = S(w2) /\ cur[w1] = cur[w2] => w1 = w2
 Quiescent == \A w \in Workers : pc[w] = "stop"
 NoDeadlock == Quiescent \/ ENABLED Next
 
